@@ -1099,3 +1099,4 @@ Proof.
 Qed.
 Print Assumptions recompress_loose_unitig.
 Print Assumptions recompress_loose_total.
+Print Assumptions recompress_unitig.
